@@ -1,6 +1,7 @@
 package main
 
 import (
+	"github.com/zmap/zcrypto/dsa"
 	"bytes"
 	stdpkix "crypto/x509/pkix"
 	stdasn1 "encoding/asn1"
@@ -306,6 +307,38 @@ func init() {
 					Desc: map[string]interface{}{"bytes": hexs(b), "result": res, "error": fmt.Sprint(err), "panic": fmt.Sprint(pv)}})
 			}
 		}
+		// ---- the four DSA key lints (Kernels/Dsa.v) on every DSA certificate of the corpus and of the zoo (key-params)
+		{
+			seenD := map[string]bool{}
+			big := 0
+			addD := func(c *x509.Certificate, what string) {
+				allow := false
+				if k, ok := c.PublicKey.(*dsa.PublicKey); ok && k != nil && k.P != nil && k.P.BitLen() >= 1024 && tier() == "thorough" && big < 3 {
+					allow = true
+				}
+				if term, tag, ok := dsaCase(c, allow); ok && !seenD[term] {
+					seenD[term] = true
+					if allow {
+						big++
+					}
+					out.Add("dsa", Case{Coq: term, Tag: tag, Desc: map[string]interface{}{"object": what, "statuses": tag}})
+				}
+			}
+			for _, cc := range loadCorpus().Certs {
+				if cc.Cert.PublicKeyAlgorithm == x509.DSA {
+					addD(cc.Cert, cc.File)
+				}
+			}
+			for _, zc := range certZoo() {
+				if zc.Class == "key-params" {
+					addD(zc.Cert, zc.File)
+				}
+			}
+		}
+		// ---- the six validity-period lints (Kernels/Validity.v, calendar arithmetic of Kernels/Calendar.v)
+		validityCases(func(term, tag string, desc map[string]interface{}) {
+			out.Add("validity", Case{Coq: term, Tag: tag, Desc: desc})
+		})
 		// ---- e_subject_dn_not_printable_characters: the attribute values of real subjects (zoo) and of crafted ones
 		{
 			seen := map[string]bool{}
